@@ -1,8 +1,747 @@
+/-
+Driver, world families.  Replays the harness' operation sequences on the Lean world model
+(`Halo.World`), compares every observation of the implementation with the model (correspondence)
+and evaluates the property predicates on the implementation's own before/after observations
+(oracle).  Line protocol: DESIGN Appendix A / harness `world.rs`.
+-/
 import Halo.Driver.Basic
+import Halo.Driver.TextFam
+import Halo.World
+import Std.Data.HashMap
+
 namespace Halo.Driver
-/-- driver-side world state (filled in by the world families) -/
+open Halo
+
+instance : Inhabited World :=
+  ⟨{ bank := fun _ _ => 0, tok := fun _ => none, pair := fun _ => none, facAddr := 0, owner := 0,
+     denoms := fun _ => none, registry := [], rawId := fun _ => [], router := 0 }⟩
+
+/-- a parsed step together with the implementation's result -/
+structure Pending where
+  line : String
+  op : Op
+  kind : String
+  implOk : Bool
+  implRes : String               -- text after `=>`
+  wBefore : World                -- model world before the step
+  modelOk : Bool
+  deriving Inhabited
+
+
 structure WorldSt where
-  dummy : Nat := 0
-def worldLine (ws : WorldSt) (_line : String) : WorldSt × List String × String × Option Verdict :=
-  (ws, [], "world", none)
+  w : World := default
+  raws : List (Asset × Bytes) := []
+  names : List (Asset × String) := []
+  cur : Std.HashMap String String := {}          -- the implementation's observed state
+  keys : Array String := #[]
+  changes : List (String × String × String) := []  -- (key, old, new) since the pending step line
+  pending : Option Pending := none
+  desync : Bool := false
+  family : String := "world"
+  seq : Nat := 0
+  lastSim : Option (Nat × Asset × Nat × String) := none          -- pair, offer, amount, result
+  lastRouteSim : Option (Nat × List (Asset × Asset) × String) := none
+  pairsSeen : List Nat := []
+  tokDecimals : List (Nat × Nat) := []
+
+/-- lenient number parsing: absent / malformed observations read as 0 instead of aborting the driver -/
+def _root_.String.toNatD (s : String) : Nat := s.toNat?.getD 0
+def _root_.String.Slice.toNatD (s : String.Slice) : Nat := s.toNat?.getD 0
+
+def parseAsset (s : String) : Asset :=
+  let n := (s.drop 1).toNatD
+  if s.startsWith "n" then .native n else .token n
+
+def showAsset : Asset → String
+  | .native d => s!"n{d}"
+  | .token t => s!"t{t}"
+
+def optN (s : String) : Option Nat := if s == "-" then none else some s.toNatD
+
+def parseCoins (s : String) : List (Nat × Nat) := coinList s
+
+def parseOps (s : String) : List (Asset × Asset) :=
+  if s == "-" then [] else (s.splitOn ";").map fun h =>
+    match h.splitOn ">" with
+    | [a, b] => (parseAsset a, parseAsset b)
+    | _ => (.native 0, .native 0)
+
+def parseHook (s : String) : Hook :=
+  match s.splitOn ":" with
+  | ["swap", a, amt, b, ms, to] => .swap (parseAsset a) amt.toNatD (optN b) (optN ms) (optN to)
+  | ["withdraw"] => .withdraw
+  | ["rops", ops, mn, to] => .routerOps (parseOps ops) (optN mn) (optN to)
+  | _ => .garbage
+
+def parseOp (t : List String) : Option Op :=
+  let n (i : Nat) : Nat := (t.getD i "0").toNatD
+  let s (i : Nat) : String := t.getD i "-"
+  match t.head? with
+  | some "bank_send" => some (.bankSend (n 1) (n 2) (parseCoins (s 3)))
+  | some "tok_transfer" => some (.tokTransfer (n 1) (n 2) (n 3) (n 4))
+  | some "tok_send" => some (.tokSend (n 1) (n 2) (n 3) (n 4) (parseHook (s 5)))
+  | some "tok_inc" => some (.tokIncAllow (n 1) (n 2) (n 3) (n 4))
+  | some "tok_burn" => some (.tokBurn (n 1) (n 2) (n 3))
+  | some "pair_provide" =>
+    some (.pair (n 1) (n 2) (parseCoins (s 3))
+      (.provide (parseAsset (s 4)) (n 5) (parseAsset (s 6)) (n 7) (optN (s 8)) (optN (s 9))))
+  | some "pair_swap" =>
+    some (.pair (n 1) (n 2) (parseCoins (s 3)) (.swap (parseAsset (s 4)) (n 5) (optN (s 6)) (optN (s 7)) (optN (s 8))))
+  | some "pair_receive" => some (.pair (n 1) (n 2) (parseCoins (s 3)) (.receive (n 4) (n 5) (parseHook (s 6))))
+  | some "pair_upd" => some (.pair (n 1) (n 2) (parseCoins (s 3)) (.updateDecimals (n 4) (n 5) (n 6)))
+  | some "r_ops" => some (.router (n 1) (parseCoins (s 2)) (.swapOps (parseOps (s 3)) (optN (s 4)) (optN (s 5))))
+  | some "r_op" => some (.router (n 1) (parseCoins (s 2)) (.swapOp (parseAsset (s 3)) (parseAsset (s 4)) (optN (s 5))))
+  | some "r_assert" => some (.router (n 1) (parseCoins (s 2)) (.assertMin (parseAsset (s 3)) (n 4) (n 5) (n 6)))
+  | some "r_receive" => some (.router (n 1) (parseCoins (s 2)) (.receive (n 3) (n 4) (parseHook (s 5))))
+  | some "f_cfg" => some (.factory (n 1) (parseCoins (s 2)) (.updateConfig (optN (s 3))))
+  | some "f_create" =>
+    some (.factory (n 1) (parseCoins (s 2))
+      (.createPair (parseAsset (s 3)) (parseAsset (s 4)) { whitelist := natList (s 5), min0 := n 6, min1 := n 7 } (optN (s 8)) 0 0))
+  | some "f_add" => some (.factory (n 1) (parseCoins (s 2)) (.addDecimals (n 3) (n 4)))
+  | some "f_mig" => some (.factory (n 1) (parseCoins (s 2)) (.migratePair (n 3)))
+  | _ => none
+
+def nameOf (st : WorldSt) (a : Asset) : String :=
+  match st.names.find? (fun e => e.1 = a) with
+  | some e => e.2
+  | none => showAsset a
+
+def wlStr (l : List Nat) : String := if l.isEmpty then "-" else ",".intercalate (l.map toString)
+
+def pairInfoStr (p : Nat) (a0 a1 : Asset) (d0 d1 lp comm : Nat) (req : Requirements) : String :=
+  s!"{p} {showAsset a0} {showAsset a1} {d0} {d1} {lp} {comm} {wlStr req.whitelist} {req.min0} {req.min1}"
+
+/-- the model's answer to one observation key -/
+def modelObs (w : World) (key : String) : String :=
+  match key.splitOn " " with
+  | ["bal", a, who] => toString (bal w (parseAsset a) who.toNatD)
+  | ["supply", t] => match w.tok t.toNatD with | some T => toString T.supply | none => "?"
+  | ["allow", t, o, s] => match w.tok t.toNatD with
+      | some T => toString ((T.allow o.toNatD s.toNatD).getD 0)
+      | none => "?"
+  | ["owner"] => toString w.owner
+  | ["denom", d] => match w.denoms d.toNatD with | some k => toString k | none => "-"
+  | ["pair", p] => match w.pair p.toNatD with
+      | some P => pairInfoStr p.toNatD P.a0 P.a1 P.d0 P.d1 P.lp P.comm P.req
+      | none => "?"
+  | ["pool", p] => match w.pair p.toNatD with
+      | some P =>
+        let S := match w.tok P.lp with | some T => T.supply | none => 0
+        s!"{bal w P.a0 p.toNatD} {bal w P.a1 p.toNatD} {S}"
+      | none => "?"
+  | ["reg", x, y] => match facLookup w (parseAsset x) (parseAsset y) with
+      | some R => pairInfoStr R.pair R.a0 R.a1 R.d0 R.d1 R.lp R.comm R.req
+      | none => "none"
+  | ["listing"] =>
+      let l := (walk w.registry (some 30)).map fun e => e.2.pair
+      wlStr l
+  | _ => "?"
+
+/-! ### reading the implementation's observations -/
+
+def curVal (st : WorldSt) (key : String) : String := st.cur.getD key ""
+def prevVal (st : WorldSt) (key : String) : String :=
+  match st.changes.find? (fun c => c.1 = key) with
+  | some c => c.2.1
+  | none => st.cur.getD key ""
+/-- earliest recorded old value wins (a key may change only once per step, but be safe) -/
+def prevValFirst (st : WorldSt) (key : String) : String :=
+  match (st.changes.reverse).find? (fun c => c.1 = key) with
+  | some c => c.2.1
+  | none => st.cur.getD key ""
+
+def balC (st : WorldSt) (a : Asset) (who : Nat) : Nat := (curVal st s!"bal {showAsset a} {who}").toNatD
+def balP (st : WorldSt) (a : Asset) (who : Nat) : Nat := (prevValFirst st s!"bal {showAsset a} {who}").toNatD
+def delta (st : WorldSt) (a : Asset) (who : Nat) : Int := (balC st a who : Int) - (balP st a who : Int)
+
+def nums (s : String) : List Nat := (s.splitOn " ").map String.toNatD
+
+/-- `(r0, r1, S)` of a pair from the `pool` observation -/
+def poolOf (v : String) : Nat × Nat × Nat :=
+  match nums v with
+  | [a, b, c] => (a, b, c)
+  | _ => (0, 0, 0)
+
+structure PairView where
+  p : Nat
+  a0 : Asset
+  a1 : Asset
+  d0 : Nat
+  d1 : Nat
+  lp : Nat
+  comm : Nat
+  wl : List Nat
+  min0 : Nat
+  min1 : Nat
+  deriving Inhabited
+
+def pairViewOf (v : String) : Option PairView :=
+  match v.splitOn " " with
+  | [p, a0, a1, d0, d1, lp, comm, wl, m0, m1] =>
+    some { p := p.toNatD, a0 := parseAsset a0, a1 := parseAsset a1, d0 := d0.toNatD, d1 := d1.toNatD, lp := lp.toNatD,
+           comm := comm.toNatD, wl := natList wl, min0 := m0.toNatD, min1 := m1.toNatD }
+  | _ => none
+
+def fundsOf (funds : List (Nat × Nat)) (a : Asset) : Nat :=
+  match a with
+  | .native d => (funds.filter (fun c => c.1 = d)).foldl (fun s c => s + c.2) 0
+  | .token _ => 0
+
+def firstCoin (funds : List (Nat × Nat)) (d : Nat) : Nat :=
+  ((funds.find? (fun c => c.1 = d)).map (·.2)).getD 0
+
+/-- swaps a route performs, as `(pair, x, y, a)` pricing inputs, replayed on the model -/
+def routeTrace (w : World) (to : Nat) : List (Asset × Asset) → List (Nat × Nat × Nat × Nat)
+  | [] => []
+  | (o, a) :: rest =>
+    match facLookup w o a with
+    | none => []
+    | some R =>
+      let amt := bal w o w.router
+      let x := bal w o R.pair
+      let y := bal w a R.pair
+      let t := (R.pair, x, y, amt)
+      match routerHop w w.router o a (if rest.isEmpty then some to else none) with
+      | .ok w' => t :: routeTrace w' to rest
+      | .error _ => [t]
+
+/-- which property a broken "failed call changes nothing" is attributed to -/
+def atomicityProp (kind : String) : String :=
+  if kind.startsWith "f_" || kind == "pair_upd" || kind == "pair_receive" || kind == "r_op" || kind == "r_assert" then "C14"
+  else if kind == "r_ops" || kind == "r_receive" then "C11"
+  else if kind == "pair_swap" || kind == "pair_provide" then "C09"
+  else "C07"
+
+def isLpToken (st : WorldSt) (t : Nat) : Option Nat :=
+  -- the pair whose LP token `t` is, according to the implementation's `pair` observations
+  st.pairsSeen.find? fun p => match pairViewOf (curVal st s!"pair {p}") with
+    | some v => v.lp = t
+    | none => false
+
+def okSwapVals (res : String) : Option (Nat × Nat × Nat × Nat) :=
+  match res.splitOn " " with
+  | ["ok", "swap", o, n, s, k] => some (o.toNatD, n.toNatD, s.toNatD, k.toNatD)
+  | _ => none
+
+/-- known finding KF-SWAP-WINDOW at world level: the step contains a swap whose pricing inputs are in the window -/
+def stepHasWindowSwap (pd : Pending) (st : WorldSt) : Bool :=
+  let w := pd.wBefore
+  match pd.op with
+  | .pair s p funds (.swap offer amt _ _ _) =>
+    (match attach w s p funds with
+     | .ok w0 => match w.pair p with
+        | some P =>
+          let ask := if offer = P.a0 then P.a1 else P.a0
+          inWindow (bal w0 offer p - amt) (bal w0 ask p) amt
+        | none => false
+     | .error _ => false)
+  | .tokSend _ _ d amt (.swap offer _ _ _ _) =>
+    (match w.pair d with
+     | some P =>
+       let ask := if offer = P.a0 then P.a1 else P.a0
+       inWindow (bal w offer d) (bal w ask d) amt
+     | none => false)
+  | .router s funds (.swapOps ops _ to) =>
+    (match attach w s w.router funds with
+     | .ok w0 => (routeTrace w0 (to.getD s) ops).any fun (_, x, y, a) => inWindow x y a
+     | .error _ => false)
+  | .tokSend t s d amt (.routerOps ops _ to) =>
+    if d = w.router then
+      (match tokTransfer w t s d amt with
+       | .ok w0 => (routeTrace w0 (to.getD s) ops).any fun (_, x, y, a) => inWindow x y a
+       | .error _ => false)
+    else false
+  | _ =>
+    let _ := st
+    false
+
+/-- accounts an operation may touch (C07) -/
+def touched (st : WorldSt) (op : Op) : List Nat :=
+  let allPairs := st.pairsSeen
+  let lpOf (p : Nat) : List Nat := match pairViewOf (curVal st s!"pair {p}") with | some v => [v.lp] | none => []
+  match op with
+  | .bankSend s d _ => [s, d]
+  | .tokTransfer _ s d _ => [s, d]
+  | .tokIncAllow _ o _ _ => [o]
+  | .tokBurn _ s _ => [s]
+  | .tokSend _ s d _ h =>
+    [s, d] ++ (match h with
+      | .swap _ _ _ _ to => to.toList
+      | .withdraw => lpOf d
+      | .routerOps _ _ to => to.toList ++ allPairs ++ [st.w.router]
+      | .garbage => [])
+  | .pair s p _ m =>
+    [s, p] ++ (match m with
+      | .provide _ _ _ _ _ r => r.toList ++ lpOf p
+      | .swap _ _ _ _ to => to.toList
+      | .receive f _ h => [f] ++ (match h with | .swap _ _ _ _ to => to.toList | .withdraw => lpOf p | _ => [])
+      | .updateDecimals _ _ _ => [])
+  | .router s _ m =>
+    [s, st.w.router] ++ (match m with
+      | .swapOps _ _ to => to.toList ++ allPairs
+      | .swapOp _ _ to => to.toList ++ allPairs
+      | .assertMin _ _ _ _ => []
+      | .receive f _ h => [f] ++ (match h with | .routerOps _ _ to => to.toList ++ allPairs | _ => []))
+  | .factory s _ _ => [s, st.w.facAddr]
+
+def fails (p note : String) (b : Bool) : List (String × String) := if b then [] else [(p, note)]
+
+/-- all property predicates evaluated on the implementation's before/after observations of one step -/
+def oracles (st : WorldSt) (pd : Pending) : List (String × String) := Id.run do
+  let mut out : List (String × String) := []
+  let changedBal := (st.changes.filter fun c => c.2.1 ≠ "").filterMap fun (k, o, n) =>
+    match k.splitOn " " with
+    | ["bal", a, who] => some (parseAsset a, who.toNatD, (n.toNatD : Int) - (o.toNatD : Int))
+    | _ => none
+  let windowed := stepHasWindowSwap pd st
+  let kw := if windowed then "known=KF-SWAP-WINDOW " else ""
+  -- a failed call changes nothing
+  if !pd.implOk then
+    if !(st.changes.filter fun c => c.2.1 ≠ "").isEmpty then
+      out := out ++ [(atomicityProp pd.kind, s!"a rejected call changed {(st.changes.head?.map (·.1)).getD ""}")]
+  -- C03: reserve0*reserve1/S^2 never decreases while the supply is positive (every pair, every step)
+  for p in st.pairsSeen do
+    let (r0, r1, S) := poolOf (prevValFirst st s!"pool {p}")
+    let (r0', r1', S') := poolOf (curVal st s!"pool {p}")
+    if S > 0 then
+      if !(decide (0 < S') && decide (r0 * r1 * (S' * S') ≤ r0' * r1' * (S * S))) then
+        out := out ++ [("C03", s!"{kw}share value of pair {p} decreased: ({r0},{r1},{S}) -> ({r0'},{r1'},{S'})")]
+  if pd.implOk then
+    -- C07: frame and conservation
+    let tch := touched st pd.op
+    for (a, who, _) in changedBal do
+      if !tch.contains who then
+        out := out ++ [("C07", s!"balance of bystander {who} in {showAsset a} changed")]
+    let assets := (changedBal.map (·.1)).eraseDups
+    for a in assets do
+      let sum := (changedBal.filter (fun c => c.1 = a)).foldl (fun s c => s + c.2.2) (0 : Int)
+      match a with
+      | .native _ => if sum ≠ 0 then out := out ++ [("C07", s!"total of {showAsset a} changed by {sum}")]
+      | .token t =>
+        let ds : Int := ((curVal st s!"supply {t}").toNatD : Int) - ((prevValFirst st s!"supply {t}").toNatD : Int)
+        if sum ≠ ds then out := out ++ [("C07", s!"balances of {showAsset a} changed by {sum} but supply by {ds}")]
+        match isLpToken st t with
+        | none => if ds ≠ 0 then out := out ++ [("C07", s!"supply of non-LP token {t} changed")]
+        | some _ =>
+          let lpOk := match pd.op with
+            | .pair _ _ _ (.provide ..) => true
+            | .tokSend _ _ _ _ .withdraw => true
+            | .pair _ _ _ (.receive _ _ .withdraw) => true
+            | .tokBurn .. => true              -- a holder burning its own LP tokens: cw20-base, outside C07
+            | _ => false
+          if ds ≠ 0 && !lpOk then out := out ++ [("C07", s!"LP supply of {t} changed outside provide/withdraw")]
+    -- swap-shaped steps
+    let swapInfo : Option (Nat × Nat × Asset × Nat × Option Nat × List (Nat × Nat) × Option Nat) :=
+      match pd.op with
+      | .pair s p funds (.swap offer amt _ _ to) => some (p, s, offer, amt, to, funds, none)
+      | .tokSend t s d amt (.swap offer _ _ _ to) => if st.pairsSeen.contains d then some (d, s, offer, amt, to, [], some t) else none
+      | _ => none
+    match swapInfo, okSwapVals pd.implRes with
+    | some (p, trader, offer, amt, to, funds, viaTok), some (o, n, s, k) =>
+      match pairViewOf (curVal st s!"pair {p}") with
+      | some v =>
+        let ask := if offer = v.a0 then v.a1 else v.a0
+        let rcv := to.getD trader
+        -- C02
+        out := out ++ fails "C02" "offer asset is not an asset of the pair" (offer = v.a0 || offer = v.a1)
+        out := out ++ fails "C02" "reported offer amount differs from the named amount" (o = amt)
+        match viaTok with
+         | some t =>
+           out := out ++ fails "C02" "hook priced an asset other than the token that was sent" (offer = .token t)
+           let declared := match pd.op with | .tokSend _ _ _ _ (.swap _ a _ _ _) => a | _ => amt
+           out := out ++ fails "C02" "hook amount differs from the cw20 amount sent" (declared = amt)
+         | none =>
+           match offer with
+            | .native d => out := out ++ fails "C09" "native offer not matched by attached funds" (firstCoin funds d = amt)
+            | .token _ => out := out ++ [("C14", "execute-swap accepted a token offer")]
+        if offer = v.a0 || offer = v.a1 then
+          out := out ++ fails "C02" "pair's offer reserve did not rise by exactly the offered amount"
+            (delta st offer p = (amt : Int) + (if viaTok.isSome then 0 else (fundsOf funds offer : Int) - (amt : Int)) && (viaTok.isSome || fundsOf funds offer = amt))
+          out := out ++ fails "C02" "pair's ask reserve did not fall by exactly the reported return"
+            (delta st ask p = (fundsOf funds ask : Int) - (n : Int))
+          if rcv ≠ p then
+            out := out ++ fails "C02" "receiver was not credited exactly the reported return"
+              (delta st ask rcv = (n : Int) - (if rcv = trader then (fundsOf funds ask : Int) else 0))
+          if trader ≠ p && trader ≠ rcv then
+            out := out ++ fails "C02" "trader did not pay exactly the offered amount"
+              (delta st offer trader = -((if viaTok.isSome then amt else fundsOf funds offer) : Int))
+          -- C01 at system level (actual reserves before and after)
+          let (r0, r1, _) := poolOf (prevValFirst st s!"pool {p}")
+          let (r0', r1', _) := poolOf (curVal st s!"pool {p}")
+          let askAfter := if ask = v.a1 then r1' else r0'
+          let askBefore := if ask = v.a1 then r1 else r0
+          if !(decide (r0 * r1 ≤ r0' * r1') && (decide (0 < askAfter) || askBefore = 0)) then
+            out := out ++ [("C01", s!"{kw}reserve product fell or ask reserve emptied: ({r0},{r1}) -> ({r0'},{r1'})")]
+          -- C06 on reported amounts
+          let x := if offer = v.a0 then r0 else r1
+          let y := (if offer = v.a0 then r1 else r0) + fundsOf funds ask
+          if v.comm ≤ E then
+            out := out ++ fails "C06" "reported swap amounts violate the price bracket" (Spec.c06 x y amt v.comm n s k)
+          -- C12: the quote taken immediately before equals the execution
+          match st.lastSim with
+           | some (qp, qo, qa, qres) =>
+             if qp = p && qo = offer && qa = amt && (funds.filter (fun c => Asset.native c.1 ≠ offer)).isEmpty then
+               out := out ++ fails "C12" s!"simulation ({qres}) differs from the executed swap" (qres = s!"ok {n} {s} {k}")
+           | none => pure ()
+      | none => pure ()
+    | _, _ => pure ()
+    -- provide
+    match pd.op with
+    | .pair s p funds (.provide as0 am0 as1 am1 _ rcvO) =>
+      match pairViewOf (curVal st s!"pair {p}"), pd.implRes.splitOn " " with
+      | some v, ["ok", "share", mStr] =>
+        let m := mStr.toNatD
+        let d0 := if as0 = v.a0 then am0 else am1
+        let d1 := if as0 = v.a1 then am0 else am1
+        let (r0, r1, S) := poolOf (prevValFirst st s!"pool {p}")
+        let rcv := rcvO.getD s
+        for (a, am) in [(as0, am0), (as1, am1)] do
+          match a with
+          | .native d => out := out ++ fails "C09" "declared native deposit not matched by attached funds" (firstCoin funds d = am)
+          | .token _ => pure ()
+        out := out ++ fails "C05" "pair did not receive exactly the declared deposits"
+          (delta st v.a0 p = d0 && delta st v.a1 p = d1)
+        if s ≠ p then
+          out := out ++ fails "C05" "caller did not pay exactly the declared deposits"
+            (delta st v.a0 s = -(d0 : Int) + (if rcv = s && v.a0 = .token v.lp then (m : Int) else 0) &&
+             delta st v.a1 s = -(d1 : Int) + (if rcv = s && v.a1 = .token v.lp then (m : Int) else 0))
+        let (_, _, S') := poolOf (curVal st s!"pool {p}")
+        if S > 0 then
+          out := out ++ fails "C05" "minted share outside the fair bracket" (Spec.c05Pos S d0 d1 r0 r1 m && decide (1 ≤ m))
+          out := out ++ fails "C05" "LP supply / receiver balance did not grow by the minted share"
+            (S' = S + m && (rcv = p || delta st (.token v.lp) rcv = (m : Int) - (if rcv = s && (v.a0 = .token v.lp) then (d0 : Int) else 0) - (if rcv = s && (v.a1 = .token v.lp) then (d1 : Int) else 0)))
+        else
+          out := out ++ fails "C05" "first provision: gate or supply wrong"
+            (Spec.c05Empty s { whitelist := v.wl, min0 := v.min0, min1 := v.min1 } d0 d1 S' && m + 1 = S' &&
+             delta st (.token v.lp) v.lp = 1)
+      | _, _ => pure ()
+    | _ => pure ()
+    -- withdraw
+    let wd : Option (Nat × Nat × Nat × Nat) := match pd.op with
+      | .tokSend t s d amt .withdraw => if st.pairsSeen.contains d then some (t, s, d, amt) else none
+      | _ => none
+    match wd, pd.implRes.splitOn " " with
+    | some (t, holder, p, a), ["ok", "refund", x0s, x1s] =>
+      match pairViewOf (curVal st s!"pair {p}") with
+      | some v =>
+        let (x0, x1) := (x0s.toNatD, x1s.toNatD)
+        let (r0, r1, S) := poolOf (prevValFirst st s!"pool {p}")
+        let (_, _, S') := poolOf (curVal st s!"pool {p}")
+        out := out ++ fails "C14" "withdraw hook accepted from a token other than the pair's LP token" (t = v.lp)
+        out := out ++ fails "C04" "refund outside the pro-rata bracket" (Spec.c04 r0 a S x0 && Spec.c04 r1 a S x1)
+        out := out ++ fails "C04" "LP supply / holder balance not reduced by exactly the burned amount"
+          (S' + a = S && delta st (.token v.lp) holder = -(a : Int) + (if v.a0 = .token v.lp then (x0 : Int) else 0) + (if v.a1 = .token v.lp then (x1 : Int) else 0))
+        if holder ≠ p then
+          out := out ++ fails "C04" "holder was not paid exactly the reported refunds"
+            ((v.a0 = .token v.lp || delta st v.a0 holder = x0) && (v.a1 = .token v.lp || delta st v.a1 holder = x1))
+      | none => pure ()
+    | _, _ => pure ()
+    -- router
+    let rt : Option (Nat × List (Asset × Asset) × Option Nat × Option Nat × Nat × Asset × List (Nat × Nat)) := match pd.op with
+      | .router s funds (.swapOps ops mn to) =>
+        (match ops.head? with
+         | some (o, _) => some (s, ops, mn, to, fundsOf funds o, o, funds)
+         | none => none)
+      | .tokSend t s d amt (.routerOps ops mn to) => if d = st.w.router then some (s, ops, mn, to, amt, .token t, []) else none
+      | _ => none
+    match rt with
+    | some (s, ops, mn, to, paidAmt, paidAsset, funds) =>
+      match ops.getLast? with
+      | some (_, target) =>
+        let rcv := to.getD s
+        -- what the recipient itself paid in the target asset during this transaction
+        let paid : Int := if rcv = s then (fundsOf funds target : Int) + (if funds.isEmpty && paidAsset = target then (paidAmt : Int) else 0) else 0
+        let got : Int := delta st target rcv + paid
+        match mn with
+         | some m => out := out ++ fails "C11" s!"route succeeded but recipient got {got} < minimum {m}" (decide ((m : Int) ≤ got))
+         | none => pure ()
+        -- C13: pure pass-through when pairs are distinct and the router held none of the route's assets
+        let routeAssets := (ops.flatMap fun (a, b) => [a, b]).eraseDups
+        let pairsOnRoute := ops.map fun (a, b) => (curVal st s!"reg {showAsset a} {showAsset b}").splitOn " " |>.head!
+        let heldBefore := routeAssets.any fun a => balP st a st.w.router ≠ 0 && !(a = paidAsset && balP st a st.w.router = 0)
+        let distinct := pairsOnRoute.eraseDups.length = pairsOnRoute.length
+        let plainRcv := !st.pairsSeen.contains rcv && rcv ≠ st.w.router
+        let firstOk := match ops.head? with | some (o, _) => o = paidAsset | none => false
+        -- the caller's own extra coins would make the router hold a route asset at entry
+        let onlyInput := funds.all fun c => Asset.native c.1 = paidAsset
+        if distinct && !heldBefore && plainRcv && firstOk && onlyInput then
+          for a in routeAssets do
+            out := out ++ fails "C13" s!"router keeps a balance of {showAsset a} after the route" (balC st a st.w.router = 0)
+          match st.lastRouteSim with
+           | some (qa, qops, qres) =>
+             if qa = paidAmt && qops = ops then
+               out := out ++ fails "C13" s!"recipient got {got}, router quoted {qres}" (qres = s!"ok {got}")
+           | none => pure ()
+          for a in routeAssets do
+            if a ≠ target && !(rcv = s && a = paidAsset) then
+              out := out ++ fails "C13" s!"intermediate asset {showAsset a} reached the recipient" (delta st a rcv = 0)
+      | none => out := out ++ [("C13", "an empty route was accepted")]
+    | none => pure ()
+    -- C14: privileged / internal entry points
+    let prevOwner := (prevValFirst st "owner").toNatD
+    match pd.op with
+    | .factory s _ m =>
+      out := out ++ fails "C14" "factory message accepted from a non-owner" (s = prevOwner)
+      match m with
+       | .updateConfig (some o) => out := out ++ fails "C14" "ownership did not follow the update" ((curVal st "owner").toNatD = o)
+       | .createPair a0 a1 _ _ _ _ =>
+         out := out ++ fails "C16" "a pair with two identical assets was created" (a0 ≠ a1)
+         let had := prevValFirst st s!"reg {showAsset a0} {showAsset a1}"
+         let had' := prevValFirst st s!"reg {showAsset a1} {showAsset a0}"
+         out := out ++ fails "C16" "a pair for an already registered asset set was created" ((had == "" || had == "none") && (had' == "" || had' == "none"))
+         for a in [a0, a1] do
+           match a with
+           | .native d => out := out ++ fails "C16" "pair created over an unregistered denom" (prevValFirst st s!"denom {d}" ≠ "-")
+           | .token t => out := out ++ fails "C16" "pair created over an address that is not a live cw20" ((st.tokDecimals.find? (·.1 = t)).isSome)
+       | .addDecimals d k =>
+         out := out ++ fails "C17" "denom query does not report the new decimals" (curVal st s!"denom {d}" = toString k)
+         for p in st.pairsSeen do
+           match pairViewOf (curVal st s!"pair {p}") with
+           | some v =>
+             if v.a0 = .native d then out := out ++ fails "C17" s!"pair {p} not updated in first position" (v.d0 = k)
+             if v.a1 = .native d then out := out ++ fails "C17" s!"pair {p} not updated in second position" (v.d1 = k)
+           | none => pure ()
+       | _ => pure ()
+    | .pair s p _ (.updateDecimals _ _ _) =>
+      out := out ++ fails "C14" "decimals update accepted from a caller other than the factory" (s = st.w.facAddr)
+      let _ := p
+    | .pair s p _ (.receive _ _ h) =>
+      match pairViewOf (curVal st s!"pair {p}"), h with
+       | some v, .withdraw => out := out ++ fails "C14" "withdraw hook accepted from a caller other than the LP token" (s = v.lp)
+       | some v, .swap .. => out := out ++ fails "C14" "swap hook accepted from a caller that is not a cw20 asset of the pair" (v.a0 = .token s || v.a1 = .token s)
+       | _, _ => out := out ++ [("C14", "malformed hook accepted")]
+    | .tokSend t _ d _ (.swap ..) =>
+      if st.pairsSeen.contains d then
+        match pairViewOf (curVal st s!"pair {d}") with
+        | some v => out := out ++ fails "C14" "swap hook accepted from a token that is not an asset of the pair" (v.a0 = .token t || v.a1 = .token t)
+        | none => pure ()
+    | .router s _ (.swapOp ..) => out := out ++ fails "C14" "single-hop message accepted from outside the router" (s = st.w.router)
+    | .router s _ (.assertMin ..) => out := out ++ fails "C14" "minimum-receive message accepted from outside the router" (s = st.w.router)
+    | _ => pure ()
+  else
+    -- C20: a withdrawal whose entitlement is at least r/1e18 + 2 of each asset must succeed
+    match pd.op with
+    | .tokSend t holder p a .withdraw =>
+      match pairViewOf (curVal st s!"pair {p}") with
+      | some v =>
+        let (r0, r1, S) := poolOf (curVal st s!"pool {p}")
+        let hb := balC st (.token t) holder
+        if t = v.lp && 1 ≤ a && a ≤ hb && decide ((r0 + 2 * E) * S ≤ r0 * a * E) && decide ((r1 + 2 * E) * S ≤ r1 * a * E)
+           && v.a0 ≠ .token v.lp && v.a1 ≠ .token v.lp then
+          out := out ++ [("C20", s!"entitled withdrawal of {a} LP from pair {p} was rejected")]
+      | none => pure ()
+    | _ => pure ()
+  -- C16 / C17: factory record = pair self-description, in both orders, at all times; C19: listing complete
+  for p in st.pairsSeen do
+    let pv := curVal st s!"pair {p}"
+    match pairViewOf pv with
+    | some v =>
+      let ra := curVal st s!"reg {showAsset v.a0} {showAsset v.a1}"
+      let rb := curVal st s!"reg {showAsset v.a1} {showAsset v.a0}"
+      if ra ≠ "" && (ra ≠ pv || rb ≠ pv) then
+        let prop := match pd.op with | .factory _ _ (.addDecimals ..) => "C17" | _ => "C16"
+        out := out ++ [(prop, s!"factory record and self-description of pair {p} differ: [{ra}] [{rb}] vs [{pv}]")]
+    | none => pure ()
+  let listing := curVal st "listing"
+  if listing ≠ "" then
+    let l := natList listing
+    if !(l.length = st.pairsSeen.length && st.pairsSeen.all (fun p => l.contains p) && l.eraseDups.length = l.length) then
+      out := out ++ [("C19", s!"walking the pair list returned {listing}, registered pairs {st.pairsSeen}")]
+  return out
+
+/-- compare every observation key with the model, then run the oracles; returns report lines -/
+def finalize (st : WorldSt) : WorldSt × List String × Option Verdict :=
+  match st.pending with
+  | none => (st, [], none)
+  | some pd =>
+    if st.desync then ({ st with pending := none, changes := [] }, [], none)
+    else
+      let bad := st.keys.toList.filterMap fun k =>
+        let mv := modelObs st.w k
+        let iv := curVal st k
+        if mv == iv then none else some s!"{k}: model={mv} impl={iv}"
+      let orc := oracles st pd
+      let div := if bad.isEmpty then none else some (";  ".intercalate (bad.take 4))
+      let outs :=
+        (match div with
+         | some d => [s!"DIVERGE world-{st.family} model={d} :: {pd.line}"]
+         | none => []) ++
+        orc.map fun (p, note) => s!"ORACLE-FAIL {p} {note} :: {pd.line}"
+      let v : Verdict := { diverge := div, oracle := orc, nontrivial := pd.implOk, tags := [pd.kind ++ (if pd.implOk then "+" else "-")] }
+      ({ st with pending := none, changes := [], desync := st.desync || div.isSome }, outs, some v)
+
+def kv (toks : List String) (k : String) : String :=
+  match toks.find? (fun t => t.startsWith (k ++ "=")) with
+  | some t => (t.drop (k.length + 1)).toString
+  | none => ""
+
+def refreshEnv (st : WorldSt) : WorldSt :=
+  let raws := st.raws
+  { st with w := { st.w with rawId := fun a => match raws.find? (fun e => e.1 = a) with | some e => e.2 | none => [] } }
+
+def outStr : Out → String
+  | .none => "ok"
+  | .swap o => s!"ok swap {o.offer} {o.ret} {o.spread} {o.comm}"
+  | .provide sh => s!"ok share {sh}"
+  | .withdraw x0 x1 => s!"ok refund {x0} {x1}"
+
+/-- one world-family line → new state, report lines, (family, verdict) for the statistics -/
+def worldLine (st : WorldSt) (line : String) : WorldSt × List String × String × Option Verdict :=
+  let toks := (line.splitOn " ").filter (· ≠ "")
+  let fam := s!"world-{st.family}"
+  match toks with
+  | "begin" :: rest =>
+    let (st1, outs, v) := finalize st
+    let _ := st1
+    ({ family := kv rest "family", seq := (kv rest "seq").toNatD }, outs, fam, v)
+  | "end" :: _ =>
+    let (st1, outs, v) := finalize st
+    (st1, outs, fam, v)
+  | ["fac", f, o] =>
+    ({ st with w := { st.w with facAddr := f.toNatD, owner := ((o.drop 6).toString).toNatD } }, [], fam, none)
+  | ["router", r] => ({ st with w := { st.w with router := r.toNatD } }, [], fam, none)
+  | ["asset", a, raw, nm] =>
+    let asset := parseAsset a
+    let rawB := unhex ((raw.drop 4).toString)
+    let nmS := String.ofList ((unhex ((nm.drop 5).toString)).map Char.ofNat)
+    let st' := { st with raws := (asset, rawB) :: st.raws.filter (fun e => e.1 ≠ asset),
+                         names := (asset, nmS) :: st.names.filter (fun e => e.1 ≠ asset) }
+    (refreshEnv st', [], fam, none)
+  | ["token", t, dec, mint, sup] =>
+    let tid := t.toNatD
+    let T : Token := { bal := fun _ => 0, allow := fun _ _ => none, supply := ((sup.drop 7).toString).toNatD,
+                       minter := optN ((mint.drop 7).toString), decimals := ((dec.drop 9).toString).toNatD }
+    ({ st with w := setTok st.w tid T, tokDecimals := (tid, T.decimals) :: st.tokDecimals }, [], fam, none)
+  | ["tbal", t, who, amt] =>
+    (match st.w.tok t.toNatD with
+     | some T =>
+       let whoN := who.toNatD
+       let a := amt.toNatD
+       ({ st with w := setTok st.w t.toNatD { T with bal := fun x => if x = whoN then a else T.bal x } }, [], fam, none)
+     | none => (st, [s!"DIVERGE {fam} model=unknown-token :: {line}"], fam, none))
+  | ["bank", who, d, amt] =>
+    let whoN := who.toNatD
+    let dN := d.toNatD
+    let a := amt.toNatD
+    let b := st.w.bank
+    ({ st with w := { st.w with bank := fun x y => if x = whoN ∧ y = dN then a else b x y } }, [], fam, none)
+  | "unit" :: _ => (st, [], fam, none)
+  | "obs" :: rest =>
+    -- obs <key…> => <value…>
+    (match line.splitOn " => " with
+     | [lhs, val] =>
+       let key := (lhs.drop 4).toString
+       let _ := rest
+       let old := st.cur.getD key ""
+       let isNew := !st.cur.contains key
+       let cur := st.cur.insert key val
+       let pairsSeen := match key.splitOn " " with
+         | ["pair", p] => if st.pairsSeen.contains p.toNatD then st.pairsSeen else st.pairsSeen ++ [p.toNatD]
+         | _ => st.pairsSeen
+       ({ st with cur := cur, keys := if isNew then st.keys.push key else st.keys,
+                  changes := if st.pending.isSome then (key, old, val) :: st.changes else st.changes,
+                  pairsSeen := pairsSeen }, [], fam, none)
+     | _ => (st, [s!"DIVERGE {fam} model=parse :: {line}"], fam, none))
+  | "query" :: _ :: q =>
+    let (st0, outs0, v0) := finalize st
+    if st0.desync then (st0, outs0, fam, v0)
+    else
+      (match line.splitOn " => " with
+       | [_, impl] =>
+         let model : String := match q with
+           | "sim" :: p :: a :: amt :: _ => res3 (qSimulation st0.w p.toNatD (parseAsset a) amt.toNatD)
+           | "rsim" :: p :: a :: amt :: _ => res3 (qReverseSimulation st0.w p.toNatD (parseAsset a) amt.toNatD)
+           | "rsimops" :: amt :: ops :: _ => res1 (routerSimulateTop st0.w amt.toNatD (parseOps ops))
+           | "rrev" :: amt :: ops :: _ => res1 (routerReverseTop st0.w amt.toNatD (parseOps ops))
+           | "lookup" :: a :: b :: _ =>
+             (match facLookup st0.w (parseAsset a) (parseAsset b) with
+              | some R => s!"ok {pairInfoStr R.pair R.a0 R.a1 R.d0 R.d1 R.lp R.comm R.req}"
+              | none => "ok none")
+           | "pairs" :: start :: lim :: _ =>
+             let cursor := if start == "-" then none else
+               match start.splitOn "," with
+               | [a, b] => some (pairKey (st0.w.rawId (parseAsset a)) (st0.w.rawId (parseAsset b)))
+               | _ => none
+             let pg := readPairs st0.w.registry cursor (optN lim)
+             s!"ok {wlStr (pg.map fun e => e.2.pair)}"
+           | _ => "?"
+         let same := if isFail model && isFail impl then true else model == impl
+         let outs := if same then [] else [s!"DIVERGE {fam} model={model} :: {line}"]
+         -- oracle bits on queries
+         let orc : List (String × String) := match q with
+           | "lookup" :: a :: b :: _ =>
+             (match pairViewOf ((impl.drop 3).toString) with
+              | some v =>
+                let (x, y) := (parseAsset a, parseAsset b)
+                fails "C16" s!"lookup of [{a},{b}] resolves to pair {v.p} over a different asset set"
+                  ((v.a0 = x && v.a1 = y) || (v.a0 = y && v.a1 = x))
+              | none => [])
+           | "pairs" :: _ :: lim :: _ =>
+             (match impl.splitOn " " with
+              | ["ok", l] =>
+                let n := (natList l).length
+                fails "C19" "a page exceeds 30 entries or the default of 10" (n ≤ 30 && (lim ≠ "-" || n ≤ 10) && (match optN lim with | some k => n ≤ k | none => true))
+              | _ => [])
+           | "rsim" :: p :: a :: amt :: _ =>
+             (match okVals impl, pairViewOf (curVal st0 s!"pair {p}") with
+              | some [o, _, _], some v =>
+                let (r0, r1, _) := poolOf (curVal st0 s!"pool {p}")
+                let ask := parseAsset a
+                let (x, y) := if ask = v.a0 then (r1, r0) else (r0, r1)
+                if (ask = v.a0 || ask = v.a1) && Spec.c12Domain y amt.toNatD v.comm then
+                  fails "C12" "reverse simulation outside the closed-form bracket"
+                    (Spec.c12Reverse x y amt.toNatD v.comm o && Spec.c12ReverseLower x y amt.toNatD v.comm o)
+                else []
+              | _, _ => [])
+           | _ => []
+         let outs := outs ++ orc.map fun (p, note) => s!"ORACLE-FAIL {p} {note} :: {line}"
+         let st1 := match q with
+           | "sim" :: p :: a :: amt :: _ => { st0 with lastSim := some (p.toNatD, parseAsset a, amt.toNatD, impl) }
+           | "rsimops" :: amt :: ops :: _ => { st0 with lastRouteSim := some (amt.toNatD, parseOps ops, impl) }
+           | _ => st0
+         let v : Verdict := { diverge := if same then none else some model, oracle := orc, nontrivial := !isFail impl, tags := ["query"] }
+         (st1, outs0 ++ outs, fam, some v)
+       | _ => (st0, outs0 ++ [s!"DIVERGE {fam} model=parse :: {line}"], fam, v0))
+  | "step" :: _ :: _ :: opToks =>
+    let (st0, outs0, v0) := finalize st
+    if st0.desync then (st0, outs0, fam, v0)
+    else
+      (match line.splitOn " => " with
+       | [lhs, impl] =>
+         let opT := ((lhs.splitOn " ").filter (· ≠ "")).drop 3
+         let _ := opToks
+         match parseOp opT with
+         | none => (st0, outs0 ++ [s!"DIVERGE {fam} model=unparsed-op :: {line}"], fam, v0)
+         | some op0 =>
+           -- the addresses a CreatePair allocates are environment inputs, taken from the implementation's result
+           let op := match op0, impl.splitOn " " with
+             | .factory s f (.createPair a0 a1 req c _ _), ["ok", "created", np, nl] => Op.factory s f (.createPair a0 a1 req c np.toNatD nl.toNatD)
+             | o, _ => o
+           let name := nameOf st0
+           let r := exec name st0.w op
+           let implOk := impl.startsWith "ok"
+           let (modelStr, w') : String × World := match r with
+             | .ok (w', out) =>
+               (match op, impl.splitOn " " with
+                | .factory _ _ (.createPair ..), ["ok", "created", np, nl] => (s!"ok created {np} {nl}", w')
+                | _, _ => (outStr out, w'))
+             | .error .guard => ("fail:guard", st0.w)
+             | .error _ => ("fail", st0.w)
+           let sameRes :=
+             if isFail modelStr && isFail impl then (modelStr == "fail:guard") == (impl == "fail:guard")
+             else modelStr == impl
+           let kind := opT.headD "?"
+           let pd : Pending := { line := line, op := op, kind := kind, implOk := implOk, implRes := impl, wBefore := st0.w,
+                                 modelOk := !isFail modelStr }
+           let st1 := { st0 with w := w', pending := some pd, changes := [],
+                                 lastSim := if kind == "pair_swap" || kind == "tok_send" then st0.lastSim else none }
+           if sameRes then (st1, outs0, fam, v0)
+           else
+             -- result mismatch: report now; the observations of this step are still read by the oracle, then the
+             -- sequence is abandoned (model and implementation no longer share a state)
+             let st2 := { st1 with w := st0.w }
+             (st2, outs0 ++ [s!"DIVERGE {fam} model={modelStr} :: {line}"], fam, v0)
+       | _ => (st0, outs0 ++ [s!"DIVERGE {fam} model=parse :: {line}"], fam, v0))
+  | _ => (st, [s!"DIVERGE {fam} model=unknown-line :: {line}"], fam, none)
+
 end Halo.Driver
